@@ -1963,6 +1963,66 @@ def c19_sites(repo_root, tier):
                     bad.append(f"{m.name}:{qual}: {ast.unparse(n)}")
     _ob(obs, "liquid2.builtin.filters/site.liquid-string-form-of-arguments", not bad and n_filters >= 60,
         f"{n_filters} filter callables: no argument is converted to text with Python's str()" if not bad else f"str() of a data argument: {bad[:4]}")
+    # an arrow function applied to an item may evaluate to undefined (the item lacks the property): every consumer of
+    # `<lambda>.map(context, items)` tests each result with is_undefined() before anything else is done with it (compared, sorted,
+    # converted to text - which raises under the strict policies although the same filter with a string key treats it as missing)
+    n_maps = 0
+    for m in repo.all_modules():
+        if ".filters." not in m.name:
+            continue
+        for qual, cls, fn, parent in function_defs(m):
+            for c in _calls(fn):
+                if not (isinstance(c.func, ast.Attribute) and c.func.attr == "map" and c.args and ast.unparse(c.args[0]) == "context" and any(x is c for x in own_nodes(fn))):
+                    continue
+                n_maps += 1
+                okm, why = False, "its results are not consumed item by item in a for loop / comprehension"
+                for loop in own_nodes(fn):
+                    gens = []
+                    if isinstance(loop, (ast.For, ast.AsyncFor)):
+                        gens = [(loop.target, loop.iter, loop.body)]
+                    elif isinstance(loop, (ast.ListComp, ast.GeneratorExp, ast.SetComp)):
+                        gens = [(g.target, g.iter, [loop.elt] + list(g.ifs)) for g in loop.generators]
+                    for tgt, it, body in gens:
+                        if not any(x is c for x in ast.walk(it)):
+                            continue
+                        # the name bound to the lambda's result: the target itself, or the element of the target tuple at the
+                        # position of the map() call among the arguments of zip()/enumerate()
+                        name = None
+                        if it is c and isinstance(tgt, ast.Name):
+                            name = tgt.id
+                        elif isinstance(it, ast.Call) and isinstance(it.func, ast.Name) and isinstance(tgt, ast.Tuple):
+                            if it.func.id == "zip":
+                                pos = [i for i, a in enumerate(it.args) if a is c]
+                                if pos and pos[0] < len(tgt.elts) and isinstance(tgt.elts[pos[0]], ast.Name):
+                                    name = tgt.elts[pos[0]].id
+                            elif it.func.id == "enumerate" and it.args and it.args[0] is c and len(tgt.elts) == 2 and isinstance(tgt.elts[1], ast.Name):
+                                name = tgt.elts[1].id
+                        if name is None:
+                            why = "the loop does not bind the lambda's result to a name"
+                            continue
+                        tested = any(isinstance(x, ast.Call) and isinstance(x.func, ast.Name) and x.func.id == "is_undefined" and x.args
+                                     and isinstance(x.args[0], ast.Name) and x.args[0].id == name for b in body for x in ast.walk(b))
+                        okm = tested
+                        why = f"`{name}` (a lambda result) is used without an is_undefined() test"
+                _ob(obs, f"{m.name}:{qual}/site.lambda-result-undefined-tested@{_ordinal(fn, c)}", okm,
+                    "each result of the arrow function is tested with is_undefined() where it is consumed" if okm
+                    else f"`{ast.unparse(c)}`: {why}: a missing property then raises under StrictUndefined (or compares as a value) in the lambda form only")
+    _ob(obs, "liquid2.builtin.filters/site.lambda-maps.count", n_maps >= 12, f"{n_maps} applications of an arrow-function argument")
+    # the string-key form chooses between `property == value` and `property is truthy` by whether a value was given at all
+    # (not nil, not undefined) - never by the truthiness of the value (0, false and '' are values to compare with)
+    n_guard = 0
+    for mn, cn in (("liquid2.builtin.filters.find_filters", "FindFilter"), ("liquid2.builtin.filters.find_filters", "FindIndexFilter"), ("liquid2.builtin.filters.find_filters", "HasFilter"),
+                   ("liquid2.builtin.filters.filtering_filters", "WhereFilter"), ("liquid2.builtin.filters.filtering_filters", "RejectFilter")):
+        mm_ = repo.module(mn)
+        fn = mm_.find(f"{cn}.__call__") if mm_ else None
+        tests = [n.test for n in own_nodes(fn) if isinstance(n, ast.If)] if fn is not None else []
+        vt = [t for t in tests if any(isinstance(x, ast.Name) and x.id == "value" for x in ast.walk(t))]
+        want = {"value is not None and (not is_undefined(value))", "not is_undefined(value) and value is not None"}
+        okg = bool(vt) and all(ast.unparse(t) in want for t in vt)
+        n_guard += len(vt)
+        _ob(obs, f"{mn}:{cn}.__call__/site.value-given-guard", okg,
+            "the equality form is chosen by `value is not None and not is_undefined(value)`" if okg
+            else f"the equality form is chosen by `{ast.unparse(vt[0]) if vt else '?'}`: a falsy value to compare with (0, false, '') falls through to the truthiness form")
     # the string-key form reads a property that an item may not have: a missing property is nil (as in the lambda form, where
     # the path evaluates to undefined) - item[key] is read through _getitem(..) or inside a try that handles KeyError
     n_sub = 0
@@ -1994,7 +2054,9 @@ def c19_sites(repo_root, tier):
 def c01_blank_sites(repo_root, tier):
     """Rendering semantics include `a block that would write text is never suppressed as blank`: the blank-flag obligations of C18."""
     r = c18_sites(repo_root, tier)
-    obs = [o for o in r["obligations"] if "blank" in o["oid"] or "suppression" in o["oid"]]
+    # ... and `literal text verbatim, modulo explicit whitespace control`: which marker trims which text (the parser's carry)
+    obs = [o for o in r["obligations"] if "blank" in o["oid"] or "suppression" in o["oid"] or "trim-carry" in o["oid"]]
+    obs += c18_block_trim(repo_root, tier)["obligations"]
     return {"obligations": obs, "samples": [], "trusted": [], "functions": [], "assumptions": []}
 
 
@@ -2035,6 +2097,43 @@ def c02_sites(repo_root, tier):
                     f"`{ast.unparse(b)}` sits in a try that handles KeyError" if ok
                     else f"`{ast.unparse(b)}`: a message naming a key the mapping lacks (e.g. '%(count)d') raises a bare KeyError that nothing converts")
     _ob(obs, "liquid2/site.message-format.count", n_fmt >= 1, f"{n_fmt} printf-style message interpolations in filter code")
+    # `.value` exists on plain tokens only (paths, ranges, template strings and markup tokens have none): reading it from a token
+    # whose kind has not been established raises AttributeError - at parse time, for a particular shape of (malformed) input
+    n_val = 0
+    for m, qual, cls, fn, parent in _all_functions(repo):
+        if m.name in ("liquid2.token", "liquid2.lexer"):
+            continue
+        ann = {a.arg: (ast.unparse(a.annotation) if a.annotation is not None else "") for a in fn.args.posonlyargs + fn.args.args + fn.args.kwonlyargs}
+        for n in own_nodes(fn):
+            if not (isinstance(n, ast.Attribute) and n.attr == "value" and isinstance(n.value, ast.Name) and "token" in n.value.id.lower()):
+                continue
+            n_val += 1
+            v = n.value.id
+
+            def _kind_test(e):
+                return any(isinstance(c, ast.Call) and isinstance(c.func, ast.Name) and c.func.id in ("is_token_type", "isinstance") and c.args
+                           and isinstance(c.args[0], ast.Name) and c.args[0].id == v for c in ast.walk(e))
+            ok = ann.get(v) == "Token"
+            for g in own_nodes(fn):
+                if isinstance(g, (ast.If, ast.IfExp)):
+                    body = g.body if isinstance(g.body, list) else [g.body]
+                    if _kind_test(g.test) and any(x is n for st in body for x in ast.walk(st)):
+                        ok = True
+                if isinstance(g, ast.BoolOp) and isinstance(g.op, ast.And):
+                    idx = [i for i, x in enumerate(g.values) if any(y is n for y in ast.walk(x))]
+                    if idx and any(_kind_test(x) for x in g.values[:idx[0]]):
+                        ok = True
+            # `stream.expect(TokenType.X)` immediately followed by `v = cast(Token, stream.next())`
+            for blk in [b for x in ast.walk(fn) for b in (getattr(x, "body", None), getattr(x, "orelse", None)) if isinstance(b, list)]:
+                for i, st in enumerate(blk):
+                    if isinstance(st, ast.Assign) and len(st.targets) == 1 and isinstance(st.targets[0], ast.Name) and st.targets[0].id == v \
+                            and ast.unparse(st.value).replace(" ", "") in ("cast(Token,stream.next())", "stream.next()") and i > 0 \
+                            and isinstance(blk[i - 1], ast.Expr) and ast.unparse(blk[i - 1].value).startswith("stream.expect(TokenType."):
+                        ok = True
+            _ob(obs, f"{m.name}:{qual}/site.token-value-kind-established@{_ordinal(fn, n, ast.Attribute)}", ok,
+                f"`{v}.value` is read where `{v}` is known to be a plain token (is_token_type / isinstance test, `Token` parameter, or stream.expect(..) just before)" if ok
+                else f"`{v}.value` is read from a token of unestablished kind: a path, range or template-string token there raises AttributeError instead of a Liquid syntax error")
+    _ob(obs, "liquid2/site.token-value-reads.count", n_val >= 30, f"{n_val} reads of a token's .value outside the lexer")
     # RenderContext.get[_async]: no assert on data-dependent values (a path whose root is not a name resolves to undefined)
     cm = repo.module("liquid2.context")
     for name in ("RenderContext.get", "RenderContext.get_async"):
@@ -2154,6 +2253,32 @@ def c14_twin(repo_root, tier):
     tw = run_twin(repo_root, tier)
     obs = [o for o in tw["obligations"] if o["oid"].endswith("/twin") and (".loaders." in o["oid"] or "liquid2.loader:" in o["oid"] or "_build_block_stacks" in o["oid"]
                                                                          or "get_template" in o["oid"] or ".tags.include_tag" in o["oid"] or ".tags.render_tag" in o["oid"] or ".tags.extends_tag" in o["oid"])]
+    return {"obligations": obs, "samples": [], "trusted": [], "functions": [], "assumptions": []}
+
+
+@register("C01")
+def c01_array_string_form(repo_root, tier):
+    """The Liquid string form of an array is the concatenation of the Liquid string forms of its items (nil vanishes, booleans
+    are true/false, nested arrays flatten): in both copies of the stringifier every join over the items applies the stringifier
+    itself to each item, passing auto_escape on. (The scalar cases are the SMT contract of the two functions.)"""
+    repo = Repo(repo_root)
+    obs = []
+    for mn, fname in (("liquid2.stringify", "to_liquid_string"), ("liquid2.builtin.expressions", "_to_liquid_string")):
+        m = repo.module(mn)
+        fn = m.find(fname) if m else None
+        joins = [c for c in _calls(fn) if isinstance(c.func, ast.Attribute) and c.func.attr == "join"] if fn is not None else []
+        bad = []
+        for c in joins:
+            g = c.args[0] if c.args else None
+            ok = isinstance(g, (ast.GeneratorExp, ast.ListComp)) and len(g.generators) == 1 and not g.generators[0].ifs and isinstance(g.generators[0].target, ast.Name) \
+                and isinstance(g.elt, ast.Call) and isinstance(g.elt.func, ast.Name) and g.elt.func.id == fname and len(g.elt.args) == 1 \
+                and isinstance(g.elt.args[0], ast.Name) and g.elt.args[0].id == g.generators[0].target.id \
+                and {k.arg: ast.unparse(k.value) for k in g.elt.keywords} == {"auto_escape": "auto_escape"} and ast.unparse(g.generators[0].iter) == "val"
+            if not ok:
+                bad.append(ast.unparse(c)[:90])
+        _ob(obs, f"{mn}:{fname}/site.array-items-stringified-recursively", len(joins) >= 2 and not bad,
+            f"{len(joins)} joins over the items of an array, each item through {fname}(item, auto_escape=auto_escape)" if len(joins) >= 2 and not bad
+            else f"an array is joined without applying {fname} to each item ({bad[:1] or 'joins not found'}): nil / booleans / nested arrays inside an array get Python's str()")
     return {"obligations": obs, "samples": [], "trusted": [], "functions": [], "assumptions": []}
 
 
